@@ -434,6 +434,23 @@ class SpecEval:
             bits, ln = self.heap.get(kb), self.heap.get(kl)
             f = w.uf('bs_eqc', z3.ArraySort(z3.IntSort(), z3.BoolSort()), z3.IntSort(), z3.ArraySort(z3.IntSort(), z3.BoolSort()), z3.IntSort(), z3.BoolSort())
             return SV(z3.And(c_.t != 0, f(bits[b_.t], ln[b_.t], bits[c_.t], ln[c_.t])), 'bool')
+        if name == 'freshsince':
+            # freshsince(k, x): the object / backing array x (current value) did not exist at the head of the current
+            # iteration of loop k (an enclosing loop of the point where the clause is evaluated)
+            X_ = getattr(self.V, 'cur_exec', None)
+            kq = int(args[0][1])
+            hh = None
+            if X_ is not None:
+                for h_, l_ in X_.cfg['loops'].items():
+                    if l_['ordinal'] == kq and h_ in X_.loopstate and hasattr(X_.loopstate[h_], 'head_heap'):
+                        hh = X_.loopstate[h_].head_heap
+            if hh is None:
+                raise SpecError('freshsince(%d, ..): loop %d has not been entered at this point' % (kq, kq))
+            v = self.ev(args[1])
+            if z3.is_expr(v.t) and v.t.sort() == S:
+                return SV(z3.And(S.arr(v.t) > hh.get(('alloc', 'arr')), S.arr(v.t) <= self.heap.get(('alloc', 'arr'))), 'bool')
+            key = self.alloc_key(v.ty)
+            return SV(z3.And(v.t > hh.get(key), v.t <= self.heap.get(key)), 'bool')
         if name == 'freshiter':
             # freshiter(x): the object x (current value) did not exist at the head of the current loop iteration
             if self.head is None:
@@ -486,6 +503,10 @@ class SpecEval:
                 # oldarrays_same("T", s...): except the backing array the slice s had at function entry
                 conds_.append(r_ != S.arr(self.sub(heap=self.old).ev(extra).t))
             return SV(z3.ForAll([r_], z3.Implies(z3.And(*conds_), new_[r_] == old_[r_]), patterns=[new_[r_]]), 'bool')
+        if name == 'itoa':
+            # itoa(i): strconv.Itoa(i) - the uninterpreted function of the trusted model
+            v_ = self.ev(args[0])
+            return SV(w.uf('strconv_Itoa', z3.IntSort(), w.Str)(v_.t), 'string')
         if name == 'mathpow':
             # mathpow(x, y): math.Pow(x, y) - the same uninterpreted function as the trusted model of math.Pow
             x_, y_ = self.ev(args[0]), self.ev(args[1])
